@@ -42,6 +42,9 @@ type Event struct {
 	G     string
 	Point string
 	KV    []interface{}
+	// Holder: the arriving goroutine held the token (it was granted and nobody else of the gated goroutines
+	// ran since), so everything that changed since the previous holder arrival is its doing.
+	Holder bool
 }
 
 // Get returns the value logged under key k (nil if absent).
@@ -170,7 +173,7 @@ func (s *Sched) Hook(point string, kv ...interface{}) {
 		}
 		s.gs[id] = g
 	}
-	ev := Event{Seq: len(s.log), G: g.Name, Point: point, KV: kv}
+	ev := Event{Seq: len(s.log), G: g.Name, Point: point, KV: kv, Holder: g.state == gRunning}
 	s.log = append(s.log, ev)
 	s.lastArr = time.Now()
 	if s.OnEvent != nil {
@@ -243,7 +246,9 @@ func (s *Sched) WaitGone(timeout time.Duration) bool {
 		s.mu.Lock()
 		n := 0
 		for _, g := range s.gs {
-			if g.state != gGone {
+			// a goroutine that announced a blocking operation and was never seen again after the scenario's
+			// body returned is parked for good (e.g. workers left on a channel nobody closes)
+			if g.state != gGone && g.state != gBlocked {
 				n++
 			}
 		}
